@@ -389,6 +389,11 @@ func runCheck(prop, tier, only string, jobs, seed int, noReplay bool, dump strin
 				case "sat":
 					reachGot[key] = true
 					ev.Coverage.ReachWitnesses++
+					if len(ev.Coverage.Samples) < 3 {
+						ev.Coverage.Samples = append(ev.Coverage.Samples, map[string]interface{}{
+							"harness": ob.Harness, "case": ob.Case, "kind": "reach (vacuity witness: path condition satisfiable)", "assertion": ob.Msg,
+							"verdict": ob.Status, "solver": ob.Solver, "secs": round3(ob.Secs)})
+					}
 				case "unknown":
 					reachGot[key] = true // undecided witness: reported, not fatal
 					ev.Coverage.Undecided = append(ev.Coverage.Undecided, fmt.Sprintf("%s[%s] reach %s", r.t.harness, r.t.caseStr(), ob.Msg))
@@ -410,6 +415,9 @@ func runCheck(prop, tier, only string, jobs, seed int, noReplay bool, dump strin
 			case "sat":
 				ev.Coverage.SatObligations++
 				key := ob.Harness + "|" + ob.Msg
+				if ob.Kind == "nodeadlock" {
+					key = ob.Harness + "|deadlock"
+				}
 				satSeen[key]++
 				if satSeen[key] <= 3 { // replay at most 3 witnesses per failing assertion
 					sats = append(sats, &satCase{ob: ob, pkg: r.t.pkg})
@@ -419,7 +427,7 @@ func runCheck(prop, tier, only string, jobs, seed int, noReplay bool, dump strin
 			default:
 				broken = append(broken, fmt.Sprintf("%s: solver error: %s", r.t.harness, ob.Err))
 			}
-			if len(ev.Coverage.Samples) < 12 && (ob.Status == "unsat" || ob.Status == "sat") {
+			if (len(ev.Coverage.Samples) < 12 && (ob.Status == "unsat" || ob.Status == "sat")) || (len(ev.Coverage.Samples) < 4 && ob.Status == "trivial") {
 				ev.Coverage.Samples = append(ev.Coverage.Samples, map[string]interface{}{
 					"harness": ob.Harness, "case": ob.Case, "kind": ob.Kind, "assertion": ob.Msg, "at": ob.Pos,
 					"verdict": ob.Status, "solver": ob.Solver, "secs": round3(ob.Secs), "term_nodes": ob.Nodes,
@@ -442,7 +450,7 @@ func runCheck(prop, tier, only string, jobs, seed int, noReplay bool, dump strin
 	var lines []string
 	known := loadKnown()
 	if len(sats) > 0 {
-		replayDir := filepath.Join(verifDir, "replay", prop)
+		replayDir := filepath.Join(envOr("VERIF_EVIDENCE_DIR", verifDir), "replay", prop)
 		os.RemoveAll(replayDir)
 		os.MkdirAll(replayDir, 0o755)
 		for i, s := range sats {
